@@ -190,6 +190,13 @@ type wres struct {
 	Capped   string            `json:"capped,omitempty"`
 }
 
+func sidePrefix(sig string) string {
+	if i := strings.Index(sig, "/"); i >= 0 {
+		return sig[:i]
+	}
+	return sig
+}
+
 func hash64(s string) uint64 {
 	h := uint64(1469598103934665603)
 	for i := 0; i < len(s); i++ {
@@ -247,7 +254,7 @@ func (en *enumerator) rec(level int) int {
 			if !ok {
 				sig = r.sig
 				if b := blame(en.e, en.g.Side, en.seq, r.violStep); b != "" {
-					sig += "/after-rejected:" + b
+					sig = sidePrefix(r.sig) + "/rejected-" + b + "-packet-changes-later-verdicts"
 				}
 				en.blamed[pk] = sig
 			}
@@ -544,6 +551,6 @@ func main() {
 		"server side: the foreign-session packet is handed to the session's unpacker directly (the relay would route it elsewhere)",
 	}
 	filterPart(c, harness.Pick(c, 5, 6))
-	packetPart(c, harness.Pick(c, 150*time.Second, 75*time.Minute))
+	packetPart(c, harness.Pick(c, 15*time.Minute, 3*time.Hour))
 	c.Finish()
 }
